@@ -26,6 +26,7 @@ func init() {
 			{"PAR-FORCLAUSE", 3, ruleParForClause},
 			{"HND-RANGEINT", 1, ruleHndRangeInt},
 			{"PAR-RETURNLINE", 1, ruleParReturnLine},
+			{"PAR-IFCHAIN", 1, ruleParIfChain},
 		},
 	})
 }
@@ -874,4 +875,53 @@ func ruleParReturnLine(c *Ctx, r *R) {
 	}
 	r.check(ok, "bare return ends at the line break", c.Pos(fd), "operands are taken only from the keyword's line",
 		"returnNud reads operands across a line break: `return⏎ note(\"x\")` in a function without results parses the next statement as the operand — the statement Go never reaches runs before the function returns (and RETURN 1 is emitted in a function with no results)")
+}
+
+// PAR-IFCHAIN: an `else if` is the else-branch of the if it follows: ifNud appends the nested
+// `if` node to the node it is currently filling and then moves on to fill that nested node.
+// The node an else-if is appended to must be the same variable that is then re-pointed to it
+// (`t.Append(x); t = x`): appended anywhere else (the first if of the chain), the third and
+// later conditions of a chain, their bodies and the final else are never compiled.
+func ruleParIfChain(c *Ctx, r *R) {
+	fd := c.Func("ifNud")
+	if fd == nil {
+		r.undecided("ifNud", "-", "not found")
+		return
+	}
+	n := 0
+	ast.Inspect(fd.Body, func(m ast.Node) bool {
+		blk, ok := m.(*ast.BlockStmt)
+		if !ok {
+			return true
+		}
+		for i := 0; i+1 < len(blk.List); i++ {
+			es, ok := blk.List[i].(*ast.ExprStmt)
+			if !ok {
+				continue
+			}
+			call, ok := unparen(es.X).(*ast.CallExpr)
+			if !ok || c.CalleeName(call) != "token.Append" || len(call.Args) != 1 {
+				continue
+			}
+			as, ok := blk.List[i+1].(*ast.AssignStmt)
+			if !ok || len(as.Lhs) != 1 || len(as.Rhs) != 1 || as.Tok != token.ASSIGN {
+				continue
+			}
+			if nosp(c.Src(as.Rhs[0])) != nosp(c.Src(call.Args[0])) {
+				continue
+			}
+			// x.Append(y); z = y  — the chain step
+			sel, ok := unparen(call.Fun).(*ast.SelectorExpr)
+			if !ok {
+				continue
+			}
+			n++
+			r.check(nosp(c.Src(sel.X)) == nosp(c.Src(as.Lhs[0])), fmt.Sprintf("else-if step #%d", n), c.Pos(es), "the nested if is appended to the node being filled, which then becomes the nested if",
+				"ifNud appends the `if` of an else-if to "+c.Src(sel.X)+" but goes on filling "+c.Src(as.Lhs[0])+": from the third condition of an if / else if / else if chain on, the conditions, their bodies and the final else hang off the wrong node and are never compiled (grade chains fall through to nothing; a `break` in a later branch is lost)")
+		}
+		return true
+	})
+	if n == 0 {
+		r.undecided("ifNud", c.Pos(fd), "no else-if chain step (x.Append(y); x = y) found")
+	}
 }
